@@ -118,7 +118,19 @@ func init() {
 		})
 	}
 	Register("C04-cases", lexCases)
-	Register("C21-cases", lexCases)
+	// C21: the token stream, and the positions of the tokens that the model does
+	// not flag against the independent linecol (evaluated inside the model on the
+	// model's tokens, which the first line shows to be the implementation's)
+	Register("C21-cases", func(c *Ctx) {
+		lexInputs(c, func(src string, format int, noShow bool) {
+			r := lexResult(src, format, noShow)
+			c.Line("lex", Hx(cfgBytes(format, noShow)), Hx(src), r)
+			if r != "panic" {
+				c.Line("posok", Hx(cfgBytes(format, noShow)), Hx(src), "ok:31")
+			}
+			c.Count("cases")
+		})
+	})
 	Register("lex-cases", lexCases)
 
 	// explore-pos: token positions of the real lexer against the independent linecol.
